@@ -36,7 +36,10 @@ def _gen_line(rng):
 def generate(rng, n):
     out = []
     for _ in range(n):
-        if rng.random() < 0.55:
+        r = rng.random()
+        if r < 0.12:
+            out.append(G.gen_writeseq(rng, annots=SP.MASKED_LAYOUTS))
+        elif r < 0.6:
             out.append(_gen_line(rng))
         else:
             c = G.gen_write(rng, annots=SP.MASKED_LAYOUTS, strict_share=0.9)
@@ -60,6 +63,12 @@ def comparable(obs):
 
 
 def oracle(case, obs):
+    if case["kind"] == "writeseq":
+        out = []
+        for per_line in obs["extra"].get("germline_nonnull", []):
+            for g, v in per_line:
+                out.append("strict-writer-emitted-germline-value | %s=%r (sequence)" % (g, v))
+        return out
     out = list(G.oracle_c05_write(case, obs))
     if case["kind"] != "line":
         return out
@@ -101,4 +110,4 @@ classify = G.classify
 
 
 def nontrivial(case, obs):
-    return bool(case.get("hit"))
+    return bool(case.get("hit")) or case["kind"] == "writeseq"
